@@ -399,8 +399,19 @@ def generate(prop, rng, tier):
                             'bin': rng.choice([1.0, 0.5, 1.0 / 3, 0.3]) * wp['T']})
     else:
         raise ValueError(prop)
-    return {'swarm': {'wp': wp, 'config': config, 'tier': tier}, 'init': {'pool': specs}, 'ops': ops,
-            'faults': {}}
+    # the caller owns the pool and may change it between calls (stale caches keyed on identity show then)
+    if rng.random() < 0.5:
+        for _ in range(rng.randint(1, 3)):
+            k = rng.randrange(len(pool))
+            new = gen.gen_spikes(rng, wp) if prop != 'C18' or rng.random() < 0.5 else \
+                rng.choice([[], [e[0]], [e[1]], [gen.gen_time(rng, wp)]])
+            if prop == 'C13':
+                new = _disorder(rng, wp, new, None)
+            ops.insert(rng.randrange(len(ops) + 1),
+                       {'op': 'mutate', 'i': k, 's': new, 'how': rng.choice(['rebind', 'inplace', 'sort'])})
+    order_seed = rng.randrange(1 << 30)
+    return {'swarm': {'wp': wp, 'config': config, 'tier': tier, 'order_seed': order_seed},
+            'init': {'pool': specs}, 'ops': ops, 'faults': {}}
 
 
 # ----------------------------------------------------------------------
@@ -420,10 +431,12 @@ def execute(world, run, prop=None):
     prop = prop or run['property']
     rec = Recorder(prop)
     spk = world.spk
-    specs = run['init']['pool']
+    specs = [{'s': list(sp['s']), 'e': list(sp['e'])} for sp in run['init']['pool']]
     config = run['swarm']['config']
     events = []
     plan = _plan_for(run)
+    import random as _random
+    rec.order = _random.Random(run['swarm'].get('order_seed', 0))
     with world.run_context(plan, events):
         pool = make_trains(spk, specs)
         snap = snapshot(pool)
@@ -431,6 +444,21 @@ def execute(world, run, prop=None):
         t1 = max(sp['e'][1] for sp in specs)
         for step, op in enumerate(run['ops']):
             rec.step = step
+            if op['op'] == 'mutate':
+                i = op['i'] % len(pool)
+                new = np.array(op['s'], dtype=float)
+                if op['how'] == 'sort':
+                    pool[i].sort()
+                    specs[i]['s'] = sorted(specs[i]['s'])
+                elif op['how'] == 'inplace' and len(new) == len(pool[i].spikes):
+                    pool[i].spikes[...] = new
+                    specs[i]['s'] = list(op['s'])
+                else:
+                    pool[i].spikes = new
+                    specs[i]['s'] = list(op['s'])
+                snap = snapshot(pool)
+                rec.log(('mutate', i, op['how']))
+                continue
             try:
                 _exec_op(world, spk, rec, prop, op, pool, specs, config, t0, t1)
             except _HarnessBug:
@@ -522,10 +550,14 @@ def _op_svp(spk, rec, op, pool, specs, config):
     skw = dict(kw)
     if op.get('ivkw'):
         skw['interval'] = iv
-    st1, sc = try_invoke(spk, pool, SCALAR[m], form, sel, skw)
     pkw = dict(kw)
     pkw.pop('normalize', None)
-    st2, pr = try_invoke(spk, pool, PROFILE[m], form, sel, pkw)
+    if rec.order.random() < 0.5:
+        st1, sc = try_invoke(spk, pool, SCALAR[m], form, sel, skw)
+        st2, pr = try_invoke(spk, pool, PROFILE[m], form, sel, pkw)
+    else:
+        st2, pr = try_invoke(spk, pool, PROFILE[m], form, sel, pkw)
+        st1, sc = try_invoke(spk, pool, SCALAR[m], form, sel, skw)
     rec.log(('svp', m, form, st1, st2, digest(norm(sc)), digest(norm(pr))))
     facts = _facts(op, specs, config, m=m, iv=('none' if iv is None else 'sub'))
     detail = {'op': op, 'config': config, 'trains': [specs[i]['s'] for i in sel],
@@ -639,6 +671,8 @@ def _op_forms(spk, rec, op, pool, specs, config):
     if kw.get('MRTS') == 'auto' and 'idx' in forms and sorted(sel) != list(range(len(pool))):
         forms = [f for f in forms if f != 'idx']
     results = []
+    forms = list(forms)
+    rec.order.shuffle(forms)
     for form in forms:
         st, r = try_invoke(spk, pool, fn, form, sel, kw)
         results.append((form, st, norm(r)))
@@ -823,6 +857,12 @@ def simplify(run):
             r = _copy(run)
             del r['init']['pool'][k]['s'][j]
             yield r
+    for oi, o in enumerate(ops):
+        if o['op'] == 'mutate':
+            for j in range(len(o['s'])):
+                r = _copy(run)
+                del r['ops'][oi]['s'][j]
+                yield r
     # drop keywords
     for oi, o in enumerate(ops):
         for key in list(o.get('kw', {})):
